@@ -255,13 +255,16 @@ func analyse(cn *cat.Conn, err error, exp map[int][]string) *summary {
 		switch {
 		case isVerTable(st):
 			sec, pending = nil, -1
-		case st.Verb == cat.VSelectVer:
+		case st.Verb == cat.VSelectVer || st.Verb == cat.VSelectVerLast:
 			k, _ := strconv.Atoi(st.Arg)
 			locusK = k
 			sec, pending = nil, -1
 			if e.Applied && len(e.Result) == 1 {
 				r := int(e.Result[0].(uint64))
 				sec = &section{k: k, recorded: r, hi: r - 1}
+			} else if e.Applied && st.Verb == cat.VSelectVerLast && len(e.Result) == 0 {
+				// no version row: the database records nothing for this stream
+				sec = &section{k: k, recorded: 0, hi: -1}
 			}
 		case st.Verb == cat.VInsert && st.Name.Name == "ver":
 			verb = "INSERT ver"
